@@ -34,6 +34,13 @@ def cases(tier, seed):
                 d = files.wspec_desc(rng, shape, rate, bs)
                 out.append({'id': 'w3:%s:%s:%s:%d' % (fam, rate, 'x'.join(map(str, bs)), rep), 'file': d,
                             'nops': 80 if tier == 'quick' else 300, 'cost': 3})
+        if rep == 0:
+            # many 4-inline units (more than twice the number of cores, not a multiple of it): volume reads are split among worker threads
+            import os as _os
+            nc = _os.cpu_count() or 1
+            for nun in (2 * nc + 1, 3 * nc + 1):
+                d = files.wspec_desc(rng, (4 * nun - rng.choice([0, 1, 3]), 6, 9), 8, (4, 4, 256), narr=1, version=[0, 2, 9])
+                out.append({'id': 'w3:tall:%d' % nun, 'file': d, 'nops': 40, 'cost': 2})
         for rate, bs in files.LAYOUTS_2D:
             nT = rng.choice([2, 3, 5, bs[1] - 1, bs[1], bs[1] + 1, 2 * bs[1] + 3])
             nZ = rng.choice([2, 7, bs[2] - 1, bs[2], bs[2] + 1]) if bs[2] <= 1024 else rng.choice([2, 50, 301])
